@@ -224,3 +224,36 @@ Proof.
   - exact (make_accessible_no_oob _ _ _ _ _ _ M).
 Qed.
 End Unchecked.
+
+(** ** the JIT's slow path is the protocol's growth request.
+    The machine code (theorem [C03_mov_template]) stores the index of the probed cell as the
+    current offset, calls [make_accessible(0, 1)] and moves back by the probe offset; on the tape
+    model that is [make_accessible(probe, probe + 1)] at the unmoved pointer — the request of
+    [BCRaw.r_probe_jit]. *)
+Section JitSlowPath.
+Variable pol : policy.
+
+Lemma jit_slow_path : forall t s base p ok, Inv t s base -> - MAG <= p <= MAG -> - MAG <= s_pos s + p <= MAG ->
+  match t_make_accessible pol ok (t_mov t p) 0 1, t_make_accessible pol ok t p (p + 1) with
+  | TOk t1, TOk t2 => t_mov t1 (- p) = t2
+  | TooLarge, TooLarge | AllocFail, AllocFail => True
+  | _, _ => False
+  end.
+Proof.
+  intros t s base p ok HI Hp Hq.
+  pose proof (mov_inv t s base HI p Hq) as HI1.
+  unfold t_make_accessible.
+  rewrite (signed_off _ _ _ HI1), (signed_off _ _ _ HI). cbn [s_pos t_mov t_size t_buf t_off].
+  replace (s_pos s + p + base + 0) with (s_pos s + base + p) by lia.
+  replace (s_pos s + p + base + 1) with (s_pos s + base + (p + 1)) by lia.
+  destruct ((needed_below (s_pos s + base + p) =? 0) && (needed_above (s_pos s + base + (p + 1)) (t_size t) =? 0)).
+  - unfold t_mov. cbn [t_buf t_size t_off]. destruct t as [buf size off]. cbn [Tape.t_buf Tape.t_size Tape.t_off] in *.
+    f_equal. rewrite wrap_wrap_add. replace (off + p + - p) with off by lia.
+    pose proof (inv_off _ _ _ HI) as HO. cbn in HO. rewrite HO. unfold wrap64. apply Z.mod_mod. rewrite U64_val. lia.
+  - destruct (pol (t_size t) (needed_below (s_pos s + base + p)) (needed_above (s_pos s + base + (p + 1)) (t_size t))) as [ns ab].
+    destruct (SIZE_LIMIT <=? ns); [exact I|]. destruct (negb ok); [exact I|].
+    unfold t_mov. cbn [t_buf t_size t_off]. f_equal.
+    rewrite wrap_wrap_add. replace (wrap64 (t_off t + p) + ab + - p) with (wrap64 (t_off t + p) + (ab - p)) by lia.
+    rewrite wrap_wrap_add. f_equal. lia.
+Qed.
+End JitSlowPath.
